@@ -588,6 +588,9 @@ class Function(ClassOrFunc):
         def scan(children):
             for element in children:
                 if element.type in ('classdef', 'funcdef', 'lambdef'):
+                    # Defaults, annotations and base classes are evaluated in
+                    # this scope, the body is not.
+                    yield from scan(element.children[:-1])
                     continue
 
                 try:
@@ -601,7 +604,8 @@ class Function(ClassOrFunc):
                 else:
                     yield from scan(nested_children)
 
-        return scan(self.children)
+        # The parameters of this function belong to the enclosing scope.
+        return scan(self.children[-1:])
 
     def iter_return_stmts(self):
         """
